@@ -3,4 +3,4 @@
 From Coq Require Import Extraction ExtrOcamlBasic.
 From RV Require Import Model.Base Model.Storage Model.Decoder Inst.Run.
 Extraction Language OCaml.
-Extraction "model.ml" Storage.c19_run_case Storage.tok_of_len Run.c11_run_case Run.c15_eval_case.
+Extraction "model.ml" Storage.c19_run_case Storage.tok_of_len Run.c11_run_case Run.c15_eval_case Run.run_parse_case Run.run_asm_case.
